@@ -34,3 +34,67 @@ func (p *Pair) Relock() {
 	p.first.RUnlock()
 	p.first.RUnlock()
 }
+
+// --- callee acquisitions (lock named with its struct type: followed through the call graph) ---
+
+func (p *Pair) readFirst() int {
+	p.first.RLock()
+	defer p.first.RUnlock()
+	return 1
+}
+
+func (p *Pair) each(f func(int)) {
+	f(1)
+	f(2)
+}
+
+// RLockFirst is a lock wrapper in the style of an exported DB.RLock().
+func (p *Pair) RLockFirst()   { p.first.RLock() }
+func (p *Pair) RUnlockFirst() { p.first.RUnlock() }
+
+// ReentrantViaCallee holds first and calls a helper that takes it again.
+func (p *Pair) ReentrantViaCallee() int {
+	p.first.RLock()
+	defer p.first.RUnlock()
+	return p.readFirst()
+}
+
+// ReentrantViaCallback holds first and hands a closure that takes it again to an iterator.
+func (p *Pair) ReentrantViaCallback() int {
+	p.first.RLock()
+	defer p.first.RUnlock()
+	n := 0
+	p.each(func(i int) { n += p.readFirst() })
+	return n
+}
+
+// ReentrantViaWrapper takes first through the wrapper and then calls the helper.
+func (p *Pair) ReentrantViaWrapper() int {
+	p.RLockFirst()
+	defer p.RUnlockFirst()
+	return p.readFirst()
+}
+
+// CalleeAfterUnlock calls the helper only after releasing the lock: fine.
+func (p *Pair) CalleeAfterUnlock() int {
+	p.first.RLock()
+	p.first.RUnlock()
+	return p.readFirst()
+}
+
+// HarmlessCallback iterates under the lock with a closure that takes no lock, although another
+// user of the same iterator (ReentrantViaCallback) passes one that does: fine.
+func (p *Pair) HarmlessCallback() int {
+	p.first.RLock()
+	defer p.first.RUnlock()
+	n := 0
+	p.each(func(i int) { n += i })
+	return n
+}
+
+// SpawnedCallee starts the helper in another goroutine while holding the lock: fine.
+func (p *Pair) SpawnedCallee() {
+	p.first.RLock()
+	defer p.first.RUnlock()
+	go p.readFirst()
+}
